@@ -37,6 +37,10 @@ CHECKS = {
          "every history up to the depth over {arrive a, arrive b, poll, close i, close i with nested poll at the yield point} for n in {1,2} agrees with a per-key counter at every admission decision", "5/C13", "mc"),
  "C14": ("model_checking", "stateless deviation-bounded DFS over three transport flavours with a Sink-contract monitor on the call log",
          "ready-before-send, no write after close/error, no idle with unflushed items, no retry inside one poll, on every execution within the bound", "5/C14", "mc"),
+ "C15": ("exploration", "exhaustive enumeration of fragmentation schedules (all <=3-chunk cuts, write sizes, Pending placements, truncations) and channel histories over a message corpus on the real transports",
+         "every corpus sequence (length 1-3) through the real serde_transport (Json, Bincode) under every listed write policy and every <=3-chunk read cut reads back identical and ends with end-of-stream; every io::ErrorKind per the 18-entry table; omitted optional fields decode to defaults; in-memory channels over all send/recv/drop histories", "5/C15", "mc"),
+ "C16": ("exploration", "exhaustive single-byte mutation / truncation / boundary-value enumeration into real endpoints with catch_unwind, three subscriber regimes",
+         "every 1-byte substitution and truncation of valid frames, boundary length prefixes, all bodies <=2 bytes, boundary-valued well-typed messages: no panic at either end, nothing stuck, a probe request is still served after every well-formed odd message", "5/C16", "mc"),
  "C18": ("model_checking", "stateless deviation-bounded DFS with distinct caller trace contexts; wire-level trace oracle",
          "request and cancel trace fields on the wire for every schedule incl. cancellation at every point", "5/C18", "mc"),
 }
